@@ -277,5 +277,8 @@ def install():
                     return fn(*aa, **kk)
                 finally:
                     Delays.point('task.end:' + prefix.split('_')[0])
-            return super().submit(wrapped, *a, **k)
+            fut = super().submit(wrapped, *a, **k)
+            # the submitting thread may lose the processor right here, with the job already running (or finished)
+            Delays.point('submitted:' + prefix.split('_')[0])
+            return fut
     R.ThreadPoolExecutor = DelayExecutor
